@@ -97,6 +97,8 @@ class Rec:
         self.watch_fs = False
         self.problems: list[tuple[str, str]] = []
         self.next_action = None
+        self.none_sources: set[int] = set()   # sources whose raw reading is None ("no value")
+        self.last_none: int | None = None     # … and the one that returned None last
         self.styles: dict[int, str] = {}
 
     def ev(self, *x) -> None:
@@ -235,6 +237,9 @@ def make_classes():
 
         def observe(self):
             self._rec.ev("observe", self._lid)
+            if self._lid in self._rec.none_sources:
+                self._rec.last_none = self._lid
+                return None
             return ("v", self._lid, ())
 
         def affect(self, action):
@@ -246,6 +251,9 @@ def make_classes():
 
         def read(self):
             self._rec.ev("observe", self._lid)
+            if self._lid in self._rec.none_sources:
+                self._rec.last_none = self._lid
+                return None
             return ("v", self._lid, ())
 
     class RActuator(LeafMixin, Actuator):
@@ -261,6 +269,9 @@ def make_classes():
 
         def wrap(self, value):
             self._rec.ev("wrap", self._lid)
+            if value is None:
+                # a transformation applies to "no value" like to any other value: the trail starts here
+                value = ("v", self._rec.last_none, ())
             return tag(self._lid, value)
 
     return RAgent, REnv, RSensor, RActuator, RWrapper
@@ -286,6 +297,8 @@ def build(tree, rec: Rec):
 
         def fn(value, _wid=wid):
             rec.ev("wrap", _wid)
+            if value is None:
+                value = ("v", rec.last_none, ())
             return tag(_wid, value)
         return fn
 
@@ -380,6 +393,40 @@ def spec_sources(tree):
             env(e[1], [e[2][1]] + outer)
     env(tree[2], [])
     return out, wrappers
+
+
+def none_eligible_sources(tree) -> list[int]:
+    """Leaf sensors / leaf environments that sit directly inside a wrapper: their raw reading may be
+    `None`, which the wrapper must transform like any other value (the model's atoms carry no payload,
+    so the observation the agent sees is the same term)."""
+    out = []
+
+    def sensor(s):
+        if s[0] == "S":
+            return
+        if s[0] == "SD":
+            for _n, c in s[1]:
+                sensor(c)
+        else:
+            if s[1][0] == "S":
+                out.append(s[1][1])
+            sensor(s[1])
+
+    def env(e):
+        if e[0] == "E":
+            return
+        if e[0] == "EM":
+            sensor(e[1])
+        else:
+            if e[1][0] == "E":
+                out.append(e[1][1])
+            env(e[1])
+    env(tree[2])
+    return out
+
+
+def assign_none_sources(tree, salt: int) -> set[int]:
+    return {sid for sid in none_eligible_sources(tree) if (sid * 5 + salt) % 2 == 0}
 
 
 def spec_sinks(tree):
@@ -594,6 +641,7 @@ def run_case(case: dict, driver):
     try:
         rec = Rec()
         rec.styles = assign_styles(tree, case.get("salt", 0))
+        rec.none_sources = assign_none_sources(tree, case.get("salt", 0))
         _CURRENT[0] = rec
         inter = build(tree, rec)
         n_saves = 0
@@ -1032,6 +1080,7 @@ def run_launch_case(case: dict, driver):
         for round_ in range(2):
             rec = Rec()
             rec.styles = assign_styles(tree, case.get("salt", 0))
+            rec.none_sources = assign_none_sources(tree, case.get("salt", 0))
             rec.root = tmp
             rec.next_action = to_py(case["action"])
             _CURRENT[0] = rec
